@@ -157,6 +157,7 @@ class Fn(object):
         self.lenient = lenient
         self.where = where or fn.name
         self.exc_names = []          # names bound by enclosing `except ... as e`
+        self.exc_classes = []        # and the classes those clauses name
         self.locals_from_ctx = set()
         self.handler_depth = 0
         self.depth = 0
@@ -280,6 +281,8 @@ class Fn(object):
         is emitted in place (see [deferred])."""
         if n is None:
             return
+        if self.handler_depth and not self.lenient:
+            self.handler_safe(n)
         if isinstance(n, ast.Call):
             sem = self.semantic_call(n)
             if sem is not None:
@@ -359,6 +362,29 @@ class Fn(object):
         if isinstance(n, ast.JoinedStr):
             return
         self.err(n, 'unsupported expression')
+
+    def handler_safe(self, n):
+        """inside an except handler an expression that raises makes the exception that is being
+        handled disappear before the fault is recorded (no exception events, no close).  Only
+        shapes that cannot raise whatever the caught exception looks like (no arguments, non-string
+        arguments, a failing __str__) are accepted there: names, constants, attributes of the
+        context, the fault code of a caught Fault, logger calls, building a Fault"""
+        if isinstance(n, ast.Subscript) and isinstance(n.ctx, ast.Load):
+            self.err(n, 'subscript inside an except handler (IndexError/KeyError would replace the handled exception)')
+        if isinstance(n, (ast.BinOp, ast.JoinedStr, ast.IfExp, ast.GeneratorExp, ast.ListComp, ast.FormattedValue)):
+            self.err(n, 'formatting / arithmetic inside an except handler (may raise, e.g. through __str__)')
+        if isinstance(n, ast.Attribute) and isinstance(n.value, ast.Name) and n.value.id in self.exc_names:
+            cls = self.exc_classes[self.exc_names.index(n.value.id)]
+            if not (cls in ('Fault', 'Redirect') and n.attr in ('faultcode', 'faultstring')):
+                self.err(n, 'attribute of the caught exception that not every %s has' % cls)
+        if isinstance(n, ast.Call) and self.semantic_call(n) is None:
+            f = n.func
+            ok = (isinstance(f, ast.Attribute) and isinstance(f.value, ast.Name) and f.value.id in LOGGERS) \
+                or (isinstance(f, ast.Name) and f.id in NEW_KIND) \
+                or (isinstance(f, ast.Name) and f.id in ('get_fault_string_from_exception', 'isinstance')) \
+                or (isinstance(f, ast.Attribute) and f.attr == 'startswith')
+            if not ok:
+                self.err(n, 'call inside an except handler that may raise')
 
     def pure_callee(self, c):
         f = c.func
@@ -624,6 +650,7 @@ class Fn(object):
             cname = h.type.id
             if h.name:
                 self.exc_names.append(h.name)
+                self.exc_classes.append(cname)
             self.handler_depth += 1
             try:
                 hb = self.block(h.body)
@@ -631,6 +658,7 @@ class Fn(object):
                 self.handler_depth -= 1
                 if h.name:
                     self.exc_names.pop()
+                    self.exc_classes.pop()
             chain_.append((cname, hb))
         res = ('Reraise',)
         for cname, hb in reversed(chain_):
@@ -948,6 +976,61 @@ class Translator(object):
             raise TranslateError('MethodContext.fire_event: unrecognised statement: %s' % txt[:100])
         return parts
 
+    def desc_parts(self):
+        """MethodDescriptor.__init__: what goes into event_managers, in order; and nothing else in
+        the package touches a descriptor's event_managers (descriptors are shared between the
+        Applications that expose a service, so a second writer would multiply listeners)"""
+        fn = self.class_member('spyne/descriptor.py', 'MethodDescriptor', '__init__')
+        if not isinstance(fn, ast.FunctionDef):
+            raise TranslateError('MethodDescriptor.__init__ not found')
+        parts = []
+        for st in fn.body:
+            if not any(isinstance(x, ast.Attribute) and x.attr == 'event_managers' for x in ast.walk(st)):
+                continue
+            txt = unparse(st)
+            if txt == 'self.event_managers = event_managers':
+                if parts:
+                    raise TranslateError('MethodDescriptor.__init__: event_managers assigned after use')
+                parts.append('DMeth')
+            elif txt == ('if self.service_class is not None:\n'
+                         '    self.event_managers.append(self.service_class.event_manager)'):
+                if parts != ['DMeth']:
+                    raise TranslateError('MethodDescriptor.__init__: unexpected order of event_managers statements')
+                parts.append('DSvc')
+            else:
+                raise TranslateError('MethodDescriptor.__init__: unrecognised event_managers statement: %s' % txt[:120])
+        if parts != ['DMeth', 'DSvc']:
+            raise TranslateError('MethodDescriptor.__init__: event_managers is built as %r' % parts)
+        if 'event_managers' not in [a.arg for a in fn.args.args]:
+            raise TranslateError('MethodDescriptor.__init__: no event_managers parameter')
+        # every other occurrence of the attribute in the package must be a plain read in
+        # MethodContext.fire_event (checked by ctx_fire_parts) — no stores, no mutating calls
+        root = os.path.join(self.repo, 'spyne')
+        for d, _, fs in os.walk(root):
+            if os.sep + 'test' in d[len(root):]:
+                continue
+            for f in fs:
+                if not f.endswith('.py'):
+                    continue
+                rel = os.path.relpath(os.path.join(d, f), self.repo)
+                try:
+                    with open(os.path.join(d, f), encoding='utf8') as fh:
+                        src = fh.read()
+                except (IOError, UnicodeDecodeError) as e:
+                    raise TranslateError('cannot read %s: %s' % (rel, e))
+                if '.event_managers' not in src:
+                    continue
+                for x in ast.walk(self.tree(rel)):
+                    if isinstance(x, ast.Attribute) and x.attr == 'event_managers':
+                        ok = (rel == 'spyne/descriptor.py' and fn.lineno <= x.lineno <= fn.end_lineno) or \
+                             (rel == 'spyne/context.py' and isinstance(x.ctx, ast.Load)
+                              and unparse(x) == 'desc.event_managers')
+                        if not ok:
+                            raise TranslateError('%s:%d: a descriptor\'s event_managers is used outside '
+                                                 'MethodDescriptor.__init__ / MethodContext.fire_event: %s'
+                                                 % (rel, x.lineno, unparse(x)))
+        return parts
+
     def evmgr_shape(self):
         """EventManager.add_listener / fire_event, oset.add, ServiceBaseMeta.__get_base_event_handlers:
         the shapes the hand-written definitions of Model.v transcribe"""
@@ -1090,6 +1173,7 @@ def generate(repo):
     tr.check_bases('spyne/server/http.py', 'HttpMethodContext', ['MethodContext'])
     tr.evmgr_shape()
     parts = tr.ctx_fire_parts()
+    dparts = tr.desc_parts()
     # roots
     tr.want_ctor('MethodContext')
     tr.want('ctx', 'close')
@@ -1102,6 +1186,7 @@ def generate(repo):
             raise TranslateError('program %s was not produced (the call graph of the pipeline changed)' % need)
     out = [HEADER]
     out.append('Definition g_ctx_fire_parts : list fpart := [%s].\n\n' % '; '.join(parts))
+    out.append('Definition g_desc_parts : list dpart := [%s].\n\n' % '; '.join(dparts))
     for name in tr.order:
         out.append('Definition %s : stmt :=\n  %s.\n\n' % (name, pp(tr.progs[name], 2)))
     flags = []
